@@ -26,7 +26,7 @@ CHECKS = {
             "Game must equal Chess!Apply(pos, m); castling-right monotonicity and sanity are TLC invariants of the reference machine.", "6-C02", GAME_NOTE),
     "C03": ("TLC trace validation with an observation stack: pop must restore the record saved at the matching push, queries must stutter; Engine.tla checked by TLC for Pop o Push = Id",
             "Search-shaped nested push/pop walks over the unchecked list (king captures included) and one push/pop of every generated "
-            "move of every family member; TraceGame.tla keeps the stack of observations and requires equality at each pop and after each query.", "6-C03", GAME_NOTE),
+            "move of every family member; TraceGame.tla keeps the stack of observations and requires equality at each pop and after each query. Capture-biased games from lib/phase_roots.txt cross the endgame threshold by play (push_history), so the king-table switch and the queries after it are observed in played games, not only in imported endgames.", "6-C03", GAME_NOTE),
     "C04": ("Zobrist.tla Hash over the key file (bytes read at check time) judged on every observation of every trace; README anchor; Engine.tla: incremental hash = Hash in every explored state",
             "Every observation carries the four hash limbs; TLC requires limbs = Hash(position) after import, push and pop, for "
             "families and recorded games, and D9C54592621D7040 for the start position.", "6-C04",
@@ -48,7 +48,7 @@ CHECKS = {
             "deeper-then-shallower limit pairs, limit classes up to 255 on tiny positions and unlimited runs under a watchdog; TLC requires every "
             "reported depth <= limit, return without external stop once the limit is reached, and no panic. Includes the TLC family FORCED (lines in which each side has one legal move, for ever) on the release and the checked build.", "6-C08",
             SEARCH_NOTE + " A watchdog stop while all reported depths are below the limit is treated as a slow search (no verdict)."),
-    "C09": ("RefSearch.tla (unpruned negamax with the named leaf rule) evaluated by TLC on full game trees dumped from the real engine, compared with the table-less optimised search under several ordering states; Pvs.tla: the window / re-search algorithm = negamax on all bounded abstract trees",
+    "C09": ("RefSearch.tla (unpruned negamax with the named leaf rule) evaluated by TLC on full game trees dumped from the real engine, compared with the table-less optimised search under several ordering states; Pvs.tla: the window / re-search algorithm = negamax on all bounded abstract trees, including trees with no-legal-move terminals (the fail-soft return)",
             "For each (position, depth) the whole tree is dumped with the engine's generator and evaluation; the real search runs with the table "
             "emptied at every node (hook) and with fresh / random history tables; TLC computes the exhaustive value and requires equality after "
             "mate-range clamping. Window level: the windowed search is also called as an interior node (hook verif_window_search, depth 0-3, ~10 "
@@ -61,7 +61,7 @@ CHECKS = {
     "C11": ("Fen.tla printer and parser judged against every exported FEN of every trace state; re-import observed through the snapshot hook",
             "TLC checks printer/parser are inverse on all explored states; for every state of families and recorded games the exported text "
             "must equal FenFields(snapshot), be a well-formed six-field FEN, parse to the position, and its re-import must give the same "
-            "position, hash and legal moves.", "6-C11", GAME_NOTE),
+            "position, hash and legal moves. In the DPUSH family the export and the re-import also run after every legal first move (the state right after each double step, reached by play).", "6-C11", GAME_NOTE),
     "C12": ("MoveText relation in TraceGame.tla (PosMoves action) judging the real binary's `position ... moves` on ALL 20480 move-shaped strings per position; text round trip on recorded games",
             "TLC proves move text injective on the explored reference states; for every sampled position (roots, FIDE-style FENs, TLC family "
             "members, game states reached through a move prefix) every string of move shape is sent to the real binary and TLC requires "
@@ -75,7 +75,7 @@ CHECKS = {
             "TLC verifies at-most-one-bestmove, no refusal when quiescent, no panic, right position searched, bounded go answered and isready "
             "answered over all interleavings of 4-5 commands and 2 gos (and reproduces the three pinned defects when the repaired orders are "
             "switched off); every command history of the model is run on the real binary with one named window stretched, plus the named race "
-            "scripts and long randomized sessions on release and checked builds.", "6-C14", SESSION_NOTE),
+            "scripts (among them a timer left asleep by an answered timed go under a later untimed go) and long randomized sessions on release and checked builds. A go without any time parameter that was not stopped may only be answered at its depth limit, on a mate score, on an only move or when the iteration depth is exhausted (TraceSession!Best, premature-answer rule).", "6-C14", SESSION_NOTE),
     "C15": ("Capacity.tla (stack arithmetic of every interface history) checked by TLC; the histories nearest each capacity, self-play, hill-climbed maximal-mobility boards and all rules/search drivers executed on the checked build (debug assertions + unsafe-precondition checks)",
             "TLC proves peak stack index <= 512 for every history of imports, position moves, searches of any depth and self-play under the "
             "repaired guards; the boundary histories (397-400 plies then go depth d / infinite), self-play to the end, maximal-mobility boards "
@@ -88,7 +88,7 @@ CHECKS = {
             "For each base FEN every single-character deletion/insertion/replacement over an alphabet of character classes, plus random "
             "multi-edits, is imported under catch_unwind; TLC classifies each string and requires: never a panic, MustReject refused, "
             "MustAccept imported as Parse(text) with its legal moves. A text whose only flaw is a castling or en-passant claim the board "
-            "contradicts may be refused; if imported it is judged like a well-formed one (Fen!ImportJudged).", "6-C17",
+            "contradicts, or a castling field that repeats or reorders its letters, may be refused; if imported it is judged like a well-formed one (Fen!ImportJudged: the rights are the set of letters named). Every en-passant file with its single capturer on either side (board edges, both colours) is imported unedited.", "6-C17",
             "Other Grey inputs produce no verdict. The grammar in spec/Fen.tla is the trusted statement of 'well-formed'."),
     "C18": ("TraceSearch.tla Playable(root, pv) judged on every info pv line of searches run over shared-table histories",
             "Every principal variation printed by the real search (captured per search) over same-game, other-game, deeper/shallower and "
